@@ -293,11 +293,12 @@ theorem checkTimeouts_coh (cfg : Cfg) (n : Node) (sid : Option Nat) (hc : Coh n)
     by_cases ht : n.now ≥ a.armedAt + a.timeout
     · simp only [ht, if_true]
       have ⟨h1, h2⟩ := expireAndPurge_coh cfg n a (expSid n sid) hc hfs hf
-      rcases hres : expireAndPurge cfg n a (expSid n sid) with ⟨n1, e⟩
-      rw [hres] at h1 h2
-      cases e with
-      | some e => exact ⟨h1, h2⟩
-      | none => exact ⟨windowTimeout_coh n1 h1, by rw [windowTimeout_failIn]; exact h2⟩
+      have heq : (expireAndPurgeLenient cfg n a (expSid n sid)).1 = (expireAndPurge cfg n a (expSid n sid)).1 := rfl
+      cases he : (expireAndPurgeLenient cfg n a (expSid n sid)).2 with
+      | some e => simp only []; rw [heq]; exact ⟨h1, h2⟩
+      | none =>
+        simp only []; rw [heq]
+        exact ⟨windowTimeout_coh _ h1, by rw [windowTimeout_failIn]; exact h2⟩
     · simp only [ht, if_false]
       exact ⟨windowTimeout_coh n hc, by rw [windowTimeout_failIn, hf]⟩
 
@@ -476,8 +477,8 @@ theorem sessOp_arm_coh (cfg : Cfg) (n : Node) (sid s secs : Nat) (mode : Mode) (
   unfold sessOp
   by_cases h0 : secs = 0
   · simp only [h0, if_true]
-    have := expire_coh cfg n (if mode.isPase = true then some sid else none) hc hf
-    rcases hr : expire cfg n (if mode.isPase = true then some sid else none) with ⟨n1, e⟩
+    have := expire_coh cfg n (some sid) hc hf
+    rcases hr : expire cfg n (some sid) with ⟨n1, e⟩
     rw [hr] at this
     cases e <;> exact this
   · simp only [h0, if_false]
@@ -562,8 +563,8 @@ theorem sessOp_revoke_coh (cfg : Cfg) (n : Node) (sid s : Nat) (mode : Mode) (hc
     Coh (sessOp cfg n sid mode (.revoke s)).1 ∧ (sessOp cfg n sid mode (.revoke s)).1.failIn = 0 := by
   unfold sessOp
   simp only []
-  have := expire_coh cfg n (if mode.isPase = true then some sid else none) hc hf
-  rcases hr : expire cfg n (if mode.isPase = true then some sid else none) with ⟨n1, e⟩
+  have := expire_coh cfg n (some sid) hc hf
+  rcases hr : expire cfg n (some sid) with ⟨n1, e⟩
   rw [hr] at this
   cases e with
   | some e => exact this
@@ -831,11 +832,10 @@ theorem checkTimeouts_sub (cfg : Cfg) (n : Node) (sid : Option Nat) :
     by_cases ht : n.now ≥ a.armedAt + a.timeout
     · simp only [ht, if_true]
       have h := expireAndPurge_sub cfg n a (expSid n sid)
-      rcases hres : expireAndPurge cfg n a (expSid n sid) with ⟨n1, e⟩
-      rw [hres] at h
-      cases e with
-      | some e => exact h
-      | none => simp only []; rw [windowTimeout_sessions]; exact h
+      have heq : (expireAndPurgeLenient cfg n a (expSid n sid)).1 = (expireAndPurge cfg n a (expSid n sid)).1 := rfl
+      cases he : (expireAndPurgeLenient cfg n a (expSid n sid)).2 with
+      | some e => simp only []; rw [heq]; exact h
+      | none => simp only []; rw [windowTimeout_sessions, heq]; exact h
     · simp only [ht, if_false]; rw [windowTimeout_sessions]; exact sessSub_refl _
 
 /-! ### restart, and the whole step -/
